@@ -15,6 +15,11 @@ use crate::schedx::{CaseInfo, Judgement};
 
 #[derive(Clone, Debug)]
 pub struct Case {
+    /// page size of the database (0 = 1024)
+    pub pagesize: u64,
+    /// before the threads start, the header slot that is not the current one is torn (its checksum no
+    /// longer matches): the first commit has to wipe it before it writes the new header
+    pub torn_slot: bool,
     /// writer 0 also stores a 20 MiB value in its increment transaction (several growth steps at once)
     pub big_value: bool,
     /// writer 0 first runs a commit whose final sync fails (EIO after the header reached the file:
@@ -33,25 +38,29 @@ pub struct Case {
 pub fn cases(tier: Tier) -> Vec<Case> {
     let q = tier == Tier::Quick;
     let mut v = vec![
-        Case { big_value: false, fsync_fault: false, mmap_fault: false, writers: 1, readers: 1, liveness: true, num_pages: 4, bound: if q { 4 } else { 8 } },
-        Case { big_value: false, fsync_fault: false, mmap_fault: false, writers: 1, readers: 1, liveness: true, num_pages: 64, bound: if q { 4 } else { 8 } },
-        Case { big_value: false, fsync_fault: false, mmap_fault: false, writers: 2, readers: 1, liveness: false, num_pages: 4, bound: if q { 2 } else { 3 } },
-        Case { big_value: false, fsync_fault: false, mmap_fault: false, writers: 3, readers: 0, liveness: false, num_pages: 4, bound: if q { 1 } else { 2 } },
-        Case { big_value: false, fsync_fault: false, mmap_fault: false, writers: 2, readers: 0, liveness: false, num_pages: 64, bound: if q { 3 } else { 4 } },
+        Case { pagesize: 0, torn_slot: false, big_value: false, fsync_fault: false, mmap_fault: false, writers: 1, readers: 1, liveness: true, num_pages: 4, bound: if q { 4 } else { 8 } },
+        Case { pagesize: 0, torn_slot: false, big_value: false, fsync_fault: false, mmap_fault: false, writers: 1, readers: 1, liveness: true, num_pages: 64, bound: if q { 4 } else { 8 } },
+        Case { pagesize: 0, torn_slot: false, big_value: false, fsync_fault: false, mmap_fault: false, writers: 2, readers: 1, liveness: false, num_pages: 4, bound: if q { 2 } else { 3 } },
+        Case { pagesize: 0, torn_slot: false, big_value: false, fsync_fault: false, mmap_fault: false, writers: 3, readers: 0, liveness: false, num_pages: 4, bound: if q { 1 } else { 2 } },
+        Case { pagesize: 0, torn_slot: false, big_value: false, fsync_fault: false, mmap_fault: false, writers: 2, readers: 0, liveness: false, num_pages: 64, bound: if q { 3 } else { 4 } },
     ];
-    v.push(Case { big_value: false, fsync_fault: false, mmap_fault: true, writers: 1, readers: if q { 1 } else { 2 }, liveness: false, num_pages: 4, bound: if q { 2 } else { 3 } });
-    v.push(Case { big_value: false, fsync_fault: false, mmap_fault: true, writers: 2, readers: 1, liveness: false, num_pages: 4, bound: if q { 1 } else { 2 } });
-    v.push(Case { big_value: false, fsync_fault: true, mmap_fault: false, writers: 1, readers: if q { 1 } else { 2 }, liveness: false, num_pages: 64, bound: if q { 2 } else { 3 } });
-    v.push(Case { big_value: false, fsync_fault: true, mmap_fault: false, writers: 2, readers: 1, liveness: false, num_pages: 64, bound: if q { 1 } else { 2 } });
-    v.push(Case { big_value: true, fsync_fault: false, mmap_fault: false, writers: 2, readers: 1, liveness: false, num_pages: 4, bound: if q { 0 } else { 1 } });
+    v.push(Case { pagesize: 0, torn_slot: false, big_value: false, fsync_fault: false, mmap_fault: true, writers: 1, readers: if q { 1 } else { 2 }, liveness: false, num_pages: 4, bound: if q { 2 } else { 3 } });
+    v.push(Case { pagesize: 0, torn_slot: false, big_value: false, fsync_fault: false, mmap_fault: true, writers: 2, readers: 1, liveness: false, num_pages: 4, bound: if q { 1 } else { 2 } });
+    v.push(Case { pagesize: 0, torn_slot: false, big_value: false, fsync_fault: true, mmap_fault: false, writers: 1, readers: if q { 1 } else { 2 }, liveness: false, num_pages: 64, bound: if q { 2 } else { 3 } });
+    v.push(Case { pagesize: 0, torn_slot: false, big_value: false, fsync_fault: true, mmap_fault: false, writers: 2, readers: 1, liveness: false, num_pages: 64, bound: if q { 1 } else { 2 } });
+    v.push(Case { pagesize: 0, torn_slot: false, big_value: true, fsync_fault: false, mmap_fault: false, writers: 2, readers: 1, liveness: false, num_pages: 4, bound: if q { 0 } else { 1 } });
     // (a reader open while the 20 MiB commit grows the file)
-    v.push(Case { big_value: true, fsync_fault: false, mmap_fault: false, writers: 1, readers: 1, liveness: false, num_pages: 4, bound: 2 });
+    v.push(Case { pagesize: 0, torn_slot: false, big_value: true, fsync_fault: false, mmap_fault: false, writers: 1, readers: 1, liveness: false, num_pages: 4, bound: 2 });
+    // a page size that does not divide the growth step, growing from four pages
+    v.push(Case { pagesize: 5000, torn_slot: false, big_value: false, fsync_fault: false, mmap_fault: false, writers: 2, readers: 1, liveness: false, num_pages: 4, bound: if q { 1 } else { 2 } });
+    // one header slot torn before the threads start
+    v.push(Case { pagesize: 0, torn_slot: true, big_value: false, fsync_fault: false, mmap_fault: false, writers: 2, readers: 1, liveness: false, num_pages: 64, bound: if q { 1 } else { 2 } });
     if !q {
-        v.push(Case { big_value: false, fsync_fault: false, mmap_fault: false, writers: 3, readers: 1, liveness: false, num_pages: 4, bound: 2 });
-        v.push(Case { big_value: false, fsync_fault: false, mmap_fault: false, writers: 2, readers: 2, liveness: false, num_pages: 4, bound: 2 });
-        v.push(Case { big_value: false, fsync_fault: false, mmap_fault: false, writers: 3, readers: 2, liveness: false, num_pages: 4, bound: 1 });
+        v.push(Case { pagesize: 0, torn_slot: false, big_value: false, fsync_fault: false, mmap_fault: false, writers: 3, readers: 1, liveness: false, num_pages: 4, bound: 2 });
+        v.push(Case { pagesize: 0, torn_slot: false, big_value: false, fsync_fault: false, mmap_fault: false, writers: 2, readers: 2, liveness: false, num_pages: 4, bound: 2 });
+        v.push(Case { pagesize: 0, torn_slot: false, big_value: false, fsync_fault: false, mmap_fault: false, writers: 3, readers: 2, liveness: false, num_pages: 4, bound: 1 });
     } else {
-        v.push(Case { big_value: false, fsync_fault: false, mmap_fault: false, writers: 2, readers: 2, liveness: false, num_pages: 4, bound: 1 });
+        v.push(Case { pagesize: 0, torn_slot: false, big_value: false, fsync_fault: false, mmap_fault: false, writers: 2, readers: 2, liveness: false, num_pages: 4, bound: 1 });
     }
     v
 }
@@ -60,7 +69,7 @@ pub fn case_infos(tier: Tier) -> Vec<CaseInfo> {
     cases(tier)
         .iter()
         .map(|c| CaseInfo {
-            label: format!("{}w{}r{}{}-pages{}-c{}", c.writers, c.readers, if c.liveness { "-liveness" } else { "" }, if c.big_value { "-20MiB-value" } else if c.mmap_fault { "-mmapfault" } else if c.fsync_fault { "-finalsyncfault" } else { "" }, c.num_pages, c.bound),
+            label: format!("{}w{}r{}{}-pages{}-c{}", c.writers, c.readers, if c.liveness { "-liveness" } else { "" }, if c.torn_slot { "-one-header-slot-torn" } else if c.pagesize != 0 { "-pagesize5000" } else if c.big_value { "-20MiB-value" } else if c.mmap_fault { "-mmapfault" } else if c.fsync_fault { "-finalsyncfault" } else { "" }, c.num_pages, c.bound),
             describe: json!({"writers": c.writers, "readers": c.readers, "writer_body": if c.liveness { "begin; put; await(reader finished); commit" } else { "begin; v = get(n); yield; put(n, v+1); yield; commit" }, "reader_body": if c.liveness { "begin; dump; drop; signal" } else { "begin; dump; yield; dump; drop" }, "initial_pages": c.num_pages, "preemption_bound": c.bound}),
         })
         .collect()
@@ -92,7 +101,7 @@ fn read_counter(tx: &jammdb::Tx) -> Result<i64, String> {
 
 pub fn run_one(case: &Case, path: &str, prefix: &[u8], policy: RwPolicy) -> (ExecResult, Vec<Judgement>, String) {
     let _ = std::fs::remove_file(path);
-    let cfg = Cfg { num_pages: case.num_pages, ..Cfg::default() };
+    let cfg = Cfg { num_pages: case.num_pages, pagesize: if case.pagesize == 0 { 1024 } else { case.pagesize }, ..Cfg::default() };
     let db = match real::guarded(|| cfg.open(path)) {
         Ok(Ok(db)) => db,
         other => return (ExecResult { points: vec![], deadlock: None, diverged: Some(format!("cannot create base: {:?}", other.map(|r| r.map(|_| ())))), panics: vec![] }, vec![], String::new()),
@@ -119,6 +128,23 @@ pub fn run_one(case: &Case, path: &str, prefix: &[u8], policy: RwPolicy) -> (Exe
             return (ExecResult { points: vec![], deadlock: None, diverged: Some(format!("cannot prepare base: {:?}", r)), panics: vec![] }, vec![], String::new());
         }
     }
+    let db = if case.torn_slot {
+        drop(db);
+        let bytes = crate::runner::read_db_file(path, cfg.pagesize);
+        if let Ok(m) = crate::fileck::choose_meta(&bytes, cfg.pagesize) {
+            use std::os::unix::fs::FileExt;
+            let at = (1 - m.slot) * cfg.pagesize + crate::fileck::REC_OFF as u64 + 56;
+            if let Ok(f) = std::fs::OpenOptions::new().write(true).open(path) {
+                let _ = f.write_all_at(&[0xA5u8; 8], at);
+            }
+        }
+        match real::guarded(|| cfg.open(path)) {
+            Ok(Ok(db)) => db,
+            other => return (ExecResult { points: vec![], deadlock: None, diverged: Some(format!("cannot reopen the base with a torn slot: {:?}", other.map(|r| r.map(|_| ())))), panics: vec![] }, vec![], String::new()),
+        }
+    } else {
+        db
+    };
     let commits_done = Arc::new(AtomicI64::new(0));
     let inside = Arc::new(AtomicI64::new(0));
     let obs = Arc::new(Mutex::new(Obs::default()));
